@@ -68,9 +68,9 @@ def check(case, ctx):
             ds = Flow(*[gp.build(s, env) for s in specs]).datastream(feed(desc0, tables0))
             desc, rows, _ = materialise(ds)
     except Exception as e:
-        rc = root_cause(e)
-        if isinstance(rc, AssertionError) and 'empty row' in str(rc):
-            return Info(rejected=True, classes=classes + ['rejected:concatenate-empty-row'])
+        why = gp.data_dependent_rejection(e)
+        if why:
+            return Info(rejected=True, classes=classes + ['rejected:' + why])
         raise unexpected(e, '/'.join(prog))
     names = [r['name'] for r in desc['resources']]
     if len(rows) != len(names):
